@@ -29,6 +29,11 @@ CHECKS = {
    technique="exhaustive enumeration of recipe configurations and of a scripted all-attempts-fail random tape on the real Generate/SuccessProbability, against an exact rational model",
    text="All recipes of the overlap universe and all 2^15 flag triples are run through the real SuccessProbability and Generate (panics recovered) and compared with the exact rational success probability and the refusal rule derived from it; degenerate character and wordlist values are enumerated; a tape policy on which every candidate fails checks the attempt budget under five (MaxTrials, MaxFailRate) settings.",
    note="Lengths bounded (1-8, 20 for flag triples); a rounding band around the refusal threshold is classified 'either'; recipes with a required set emptied by exclusion are 'either' (see DESIGN §4)."),
+ "C03": dict(
+   engine="E1-cells", category="model_checking", ref="§3 C03",
+   technique="exhaustive enumeration of all 2^15 class-flag triples x custom settings, deviation-bounded exploration of the draws of the real Generate (each position forced to each alphabet index), token-level oracle from an independent model",
+   text="Every flag triple is crossed with 9 custom-string settings and 3 lengths; Alphabet() must equal the model's alphabet exactly, and every password returned on policy tapes that force each alphabet index (including the last) at each position, and that make the first candidate miss each requirement in turn, must consist of Length single-character atoms from the alphabet, meet every live requirement and contain no excluded character.",
+   note="Deviation bound 1 (quick) / 2 (thorough) draws per execution relative to a model-chosen valid candidate; complete outcome products are covered for small alphabets by C02. Full position x index forcing only for the 3-class flag subset; other triples force first/last position to indices 0,1,last."),
 }
 
 PENDING_REASON = "check not built yet in this session (planned in DESIGN.md §3; will be claimed when its checker exists)"
